@@ -1,5 +1,11 @@
 """C17 - route sync converges for Felix's routes and leaves other routes alone (felix/routetable)."""
-from vlib import pipeline
+import json
+import os
+
+from vlib import core, pipeline
+from vlib.core import HarnessError, log
+
+SPECDIR = "reconcile_routes"
 
 
 def signature(t_id, events, off, reason):
@@ -8,35 +14,206 @@ def signature(t_id, events, off, reason):
 
 
 def nontrivial(evs):
-    # a trace exercises the property when a successful Apply happened while something was wanted and a
-    # foreign or stale route was in the kernel, or after interface churn / an injected netlink failure
+    # a trace exercises the property when a successful Apply left routes in the kernel after something was
+    # asked for AND the kernel was edited behind Felix's back / an interface changed / a netlink call failed
     kinds = {e["ev"] for e in evs}
     ok_apply = any(e["ev"] == "apply" and e["ok"] and e["kernel"] for e in evs)
     return ok_apply and bool(kinds & {"env_routes", "env_link", "fail"}) and bool(kinds & {"set_routes", "route_update"})
 
 
-P = {
-    "specdir": "reconcile_routes",
-    "design": [],
-    "gen": None,
-    "driver": {"cmd": "routes"},
-    "n_random": (250, 6000),
-    "trace": {"module": "T_Routes", "cfg": "T_Routes.cfg", "heap": "4g", "timeout": 900},
-    "chunk": 12000,
-    "signature": signature,
-    "nontrivial": nontrivial,
-    "rule": "",
-    "assumptions": [],
-    "exhaustive": False,
-}
+RULE = ("behaviours = TLC random walks (-simulate) through the implementation-layer spec I_Routes (3 generator "
+        "configs: RemoveExternalRoutes on/off, conntrack cleanup on/off), every walk = starting kernel + up to 32 "
+        "input steps with an Apply at least every 4th step, plus seeded random histories over a larger universe "
+        "(7 interfaces, 6 destinations, IPv4/IPv6, 5 route classes, 12 failure flags, persistent failures); a "
+        "trace is non-trivial if a successful Apply left routes in the kernel after routes were asked for and "
+        "the kernel/interfaces were edited or a netlink failure was armed; distinct = distinct event sequences")
+ASSUMPTIONS = [
+    "kernel = felix/netlinkshim/mocknetlink; the environment step that takes an interface down/away also removes "
+    "the routes through it (flush), as the kernel does; the mock itself would keep them",
+    "no route-deletion grace period (routeCleanupGracePeriod = 0), no multi-path targets, TOS 0 (the mock's route "
+    "key ignores TOS)",
+    "ownership = MainTableOwnershipPolicy as built by ownershippol.NewMainTable, transcribed in Routes.tla "
+    "(IsWorkloadBGPPeerIface unset)",
+    "main legs keep away from three confirmed defects (notes/C17.md F1-F3): an ifindex is never reused; a failed "
+    "route listing is only injected into a full resync; with conntrack cleanup enabled a single-address "
+    "destination is wanted through one fixed (class, interface). The defects themselves are replayed by the "
+    "repro leg on every run.",
+]
+
+DESIGN = [{"module": "I_Routes", "cfg": "MC_I_Routes_quick.cfg", "thorough_cfg": "MC_I_Routes.cfg", "workers": 4,
+           "heap": "4g", "timeout": 600, "thorough_timeout": 1500,
+           # connection failures / lying LinkByName / per-interface listing are not armed in the quick config
+           "allow_zero": ("ConnFail",)}]
+
+
+def P_for(gen_cfg, n_random, design, num):
+    return {
+        "specdir": SPECDIR,
+        "design": design,
+        "gen": {"module": "Gen_Routes", "cfg": gen_cfg, "simulate": {"num": num[0], "depth": 700},
+                "thorough_simulate": {"num": num[1], "depth": 700}, "workers": 1, "heap": "4g",
+                "timeout": 600, "thorough_timeout": 1500},
+        "driver": {"cmd": "routes"},
+        "n_random": n_random,
+        "trace": {"module": "T_Routes", "cfg": "T_Routes.cfg", "heap": "4g", "timeout": 1200},
+        "chunk": 15000,
+        "signature": signature,
+        "nontrivial": nontrivial,
+        "rule": RULE,
+        "assumptions": [],
+        "exhaustive": False,
+    }
+
+
+P = P_for("Gen_sim.cfg", (200, 5000), DESIGN, (60, 1500))
+
+REPROS = [
+    ("F1-early-delete-forgets-belief", "repro_F1_early_delete.json",
+     "applyUpdates deletes a moving single-address route early (conntrack ordering) without updating the "
+     "Dataplane() tracker; if the replacement fails and the desired route reverts, Apply succeeds with the route missing"),
+    ("F2-partial-resync-swallows-list-error", "repro_F2_list_swallowed.json",
+     "resyncIface swallows a failed RouteList and takes the interface off the rescan list; after an announced "
+     "down/up flap Apply succeeds with the flushed route still missing"),
+    ("F3-stale-iface-state-on-ifindex-reuse", "repro_F3_ifindex_reuse.json",
+     "a renumbering interface event leaves ifaceIndexToState[old index]; when that ifindex reappears and is first "
+     "seen by a full resync the interface is never registered and its routes are not programmed"),
+]
+
+
+def repro_leg(ctx):
+    """Replay the minimal reproductions of the confirmed defects on the real code; a reproduction that TLC
+    rejects is a known finding (KNOWN-FINDING when listed in known_findings.json; logged otherwise, or a
+    VIOLATION with VERIF_C17_STRICT=1).  A reproduction TLC accepts means the defect is gone."""
+    out = []
+    strict = os.environ.get("VERIF_C17_STRICT") == "1"
+    for sig, fname, what in REPROS:
+        beh = os.path.join(core.SPECS, SPECDIR, fname)
+        tp = os.path.join(ctx.work, "repro-%s.ndjson" % sig[:2])
+        pipeline.run_driver(ctx, {"cmd": "routes"}, beh, tp, 0)
+        tr = core.validate_trace(SPECDIR, "T_Routes", "T_Routes.cfg", tp, heap="4g", timeout=300)
+        rec = {"finding": sig, "reproduced": not tr.accepted, "rejected_event": tr.hwm if not tr.accepted else None}
+        if not tr.accepted:
+            # confirm on re-execution
+            tp2 = os.path.join(ctx.work, "repro2-%s.ndjson" % sig[:2])
+            pipeline.run_driver(ctx, {"cmd": "routes"}, beh, tp2, 0)
+            tr2 = core.validate_trace(SPECDIR, "T_Routes", "T_Routes.cfg", tp2, heap="4g", timeout=300)
+            if tr2.accepted:
+                raise HarnessError("reproduction %s not stable on re-execution" % sig)
+            if core.known_match(ctx.id, sig) or strict:
+                rdir = core.save_replay(ctx, sig[:2], files={"trace.ndjson": tp, "behaviours.json": beh},
+                                        meta={"property": ctx.id, "signature": sig, "event_index": tr.hwm, "what": what})
+                core.report(ctx, sig, what, rdir)
+            else:
+                log("confirmed defect reproduced (not in known_findings.json, not counted): %s - %s" % (sig, what))
+        else:
+            log("defect %s no longer reproduces (TLC accepts the reproduction trace)" % sig)
+        out.append(rec)
+    ctx.notes["defect_reproductions"] = out
+
+
+def defect_design_leg(ctx):
+    """The implementation-layer spec with the code's actual behaviour switched on must violate PostOK."""
+    res = []
+    for cfg in ("MC_I_Routes_defect_early.cfg", "MC_I_Routes_defect_list.cfg"):
+        r = core.tlc(SPECDIR, "I_Routes", cfg, workers=4, heap="4g", timeout=900)
+        res.append({"cfg": cfg, "violated": r.violated, "distinct": r.distinct, "wall_s": round(r.wall, 1)})
+        if r.violated != "PostOK":
+            raise HarnessError("%s was expected to violate PostOK (defect model), got %r" % (cfg, r.violated))
+    ctx.notes["defect_design_runs"] = res
 
 
 def run(ctx):
     pipeline.standard_check(ctx, P)
+    if ctx.replay:
+        return
+    if not ctx.violations:
+        pipeline.standard_check(ctx, P_for("Gen_sim_noext.cfg", (0, 0), [], (40, 1000)))
+    if not ctx.violations:
+        pipeline.standard_check(ctx, P_for("Gen_sim_ct.cfg", (0, 0), [], (40, 1000)))
+    ctx.cov["rule"] = RULE
+    ctx.assumptions += ASSUMPTIONS
+    repro_leg(ctx)
+    if not ctx.quick:
+        defect_design_leg(ctx)
 
 
 def selftest(ctx):
-    return False
+    def first_ok_apply(evs, pred=lambda e: True):
+        for i, e in enumerate(evs):
+            if e["ev"] == "apply" and e["ok"] and e["kernel"] and pred(e) and i > 2:
+                return i
+        return None
+
+    def drop_felix_route(evs):
+        # a wanted route vanishes from the kernel snapshot of a successful Apply
+        for i, e in enumerate(evs):
+            if e["ev"] == "apply" and e["ok"]:
+                prev = None
+                for p in reversed(evs[:i]):
+                    if "kernel" in p:
+                        prev = p["kernel"]
+                        break
+                new = [r for r in e["kernel"] if prev is not None and r not in prev]
+                if new:
+                    e["kernel"] = [r for r in e["kernel"] if r != new[0]]
+                    return evs
+        return None
+
+    def foreign_route_vanishes(evs):
+        # a route that nobody asked for and that was in the starting kernel disappears at the first Apply
+        # (pick one on a foreign interface with a foreign protocol: never Felix-owned)
+        t0 = evs[0]
+        for r in t0.get("kernel", []):
+            if r["ifx"] in (2, 3) and r["proto"] in (2, 4, 12) and r["table"] == 254:
+                pass
+        for i, e in enumerate(evs):
+            if e["ev"] == "apply":
+                for r in e["kernel"]:
+                    if r["ifx"] in (2, 3) and r["proto"] in (2, 4) and r["type"] == 1:
+                        prev = [p for p in evs[:i] if "kernel" in p][-1]["kernel"]
+                        if r in prev:
+                            e["kernel"] = [x for x in e["kernel"] if x != r]
+                            return evs
+        return None
+
+    def flip_gateway(evs):
+        for i, e in enumerate(evs):
+            if e["ev"] == "apply" and e["ok"]:
+                prev = [p for p in evs[:i] if "kernel" in p][-1]["kernel"]
+                new = [r for r in e["kernel"] if r not in prev and r["type"] == 1]
+                if new:
+                    new[0]["gw"] = "203.0.113.7"
+                    return evs
+        return None
+
+    def drop_request(evs):
+        # Felix programs a route that (according to the corrupted trace) nobody asked for
+        for i, e in enumerate(evs):
+            if e["ev"] == "route_update":
+                for j in range(i + 1, len(evs)):
+                    f = evs[j]
+                    if f["ev"] in ("route_update", "set_routes", "route_remove"):
+                        break
+                    if f["ev"] == "apply" and f["ok"] and any(r["dst"] == e["target"]["dst"] and r["table"] == 254 for r in f["kernel"]):
+                        prev = [p for p in evs[:j] if "kernel" in p][-1]["kernel"]
+                        if not any(r["dst"] == e["target"]["dst"] and r["table"] == 254 for r in prev):
+                            return evs[:i] + evs[i + 1:]
+        return None
+
+    return pipeline.corruption_selftest(ctx, P, [("drop_felix_route", drop_felix_route),
+                                                 ("foreign_route_vanishes", foreign_route_vanishes),
+                                                 ("flip_gateway", flip_gateway),
+                                                 ("drop_request", drop_request)], n_random=40)
 
 
-MANIFEST = dict(text="", design_ref="3.5 C17", technique="")
+MANIFEST = dict(
+    text="Routes.tla states the property as the postcondition of Apply (exact owned routes with class priority, "
+         "foreign routes untouched, unwanted owned routes gone; demanded whenever Felix was told or had queued a "
+         "resync); TLC checks exhaustively that the implementation-shaped I_Routes (one action per netlink call of "
+         "Apply, injected netlink failures, interface down/up/recreate, foreign and stale starting kernels) satisfies "
+         "it; TLC random walks through I_Routes and seeded random histories are replayed on the real RouteTable over "
+         "mocknetlink and every Apply's resulting kernel is validated by TLC against Routes.tla. Three confirmed "
+         "defects (notes/C17.md) are replayed by a separate reproduction leg and kept out of the main legs.",
+    design_ref="3.5 C17",
+    technique="TLA+ spec (Routes/I_Routes) + TLC; TLC-generated behaviours replayed; trace validation with TLC",
+)
